@@ -99,6 +99,7 @@ class ModelServer:
         self.creates = collections.Counter()
         self.requests_seen = collections.Counter()  # job name -> number of requests read (any stream)
         self.lost = 0
+        self.orphans = []  # requests received before a stream break, still to be processed by the service (no response)
         self.failing = set(failing)
         if pre_prog:
             self.progs.add(PROGRAM)
@@ -140,8 +141,8 @@ class ModelServer:
     async def cancel_quantum_job(self, req):
         self.cancels.append(req.name)
 
-    def process(self, st, i, forced_error=None):
-        r = st.inbox.pop(i)
+    def process(self, st, i, forced_error=None, choose=None, orphan=False):
+        r = self.orphans.pop(i) if orphan else st.inbox.pop(i)
         kind = r._pb.WhichOneof("request")
         R = quantum.QuantumRunStreamResponse
 
@@ -159,7 +160,11 @@ class ModelServer:
             pn = r.create_quantum_program_and_job.quantum_program.name
             jn = r.create_quantum_program_and_job.quantum_job.name
             if pn in self.progs:
-                out = err(Code.PROGRAM_ALREADY_EXISTS)
+                # when both exist the service may name either: the explorer decides
+                if jn in self.jobs and choose is not None and choose(2, "srv-both-exist") == 1:
+                    out = err(Code.JOB_ALREADY_EXISTS)
+                else:
+                    out = err(Code.PROGRAM_ALREADY_EXISTS)
             else:
                 self.progs.add(pn)
                 self.jobs[jn] = "created"
@@ -181,7 +186,8 @@ class ModelServer:
             out = done(jn) if jn in self.jobs else err(Code.JOB_DOES_NOT_EXIST)
         else:
             raise core.HarnessError(f"unknown request kind {kind}")
-        st.outbox.append(out)
+        if not orphan:
+            st.outbox.append(out)
         return kind
 
 
@@ -203,7 +209,7 @@ RETRYABLE = [gex.ServiceUnavailable, gex.InternalServerError, gex.Unknown]
 
 class Scenario:
     def __init__(self, njobs=1, pre_prog=False, pre_jobs=(), failing=(), breaks=1, fatal=0, srverr=0, cancel=0, stop=0,
-                 deviations=0, resubmit_after_stop=False, retry_exc=0, submit_all_first=False):
+                 deviations=0, resubmit_after_stop=False, retry_exc=0, submit_all_first=False, late=False):
         self.__dict__.update(locals())
         del self.__dict__["self"]
 
@@ -260,6 +266,8 @@ class StreamRun:
             ev += [("proc", i) for i in range(len(st.inbox))]
             ev += [("deliver", i) for i in range(len(st.outbox))]
         opt = []
+        if self.sc.late:
+            opt += [("proc_orphan", i) for i in range(len(self.srv.orphans))]
         if st is not None and self.pending():
             if self.budget["breaks"] > 0:
                 opt.append(("break", 0))
@@ -283,7 +291,9 @@ class StreamRun:
             self.expected[k] = "result"
             self.next_submit += 1
         elif kind == "proc":
-            self.srv.process(st, arg)
+            self.srv.process(st, arg, choose=self.ch.choose)
+        elif kind == "proc_orphan":
+            self.srv.process(None, arg, choose=self.ch.choose, orphan=True)
         elif kind == "deliver":
             st.q.put_nowait(st.outbox.pop(arg))
         elif kind == "break":
@@ -292,6 +302,8 @@ class StreamRun:
             st.q.put_nowait(exc)
             st.alive = False
             self.srv.lost += len(st.inbox) + len(st.outbox)
+            if self.sc.late:
+                self.srv.orphans.extend(st.inbox)  # received before the break: may still be processed later
             st.inbox.clear()
             st.outbox.clear()
         elif kind == "fatal":
@@ -343,6 +355,7 @@ class StreamRun:
             tuple((o._pb.WhichOneof("response"), o.message_id) for o in st.outbox) if st else None,
             tuple(sorted((k, f.done()) for k, f in self.futs.items())),
             tuple(sorted(self.budget.items())), self.next_submit, self.stopped, len(self.srv.streams),
+            tuple(_req_kind(r) for r in self.srv.orphans),
         )
         self.snapshots.add(hashlib.blake2b(repr(snap).encode(), digest_size=8).digest())
         n_manage = sum(1 for t in self.loop.live_tasks() if getattr(t.get_coro(), "__name__", "") == "_manage_stream")
@@ -510,6 +523,8 @@ def scenarios_b(tier):
               Scenario(njobs=2, breaks=0, cancel=1), Scenario(njobs=2, breaks=1, fatal=1, retry_exc=2),
               Scenario(njobs=2, breaks=0, srverr=1), Scenario(njobs=2, breaks=0, stop=1, resubmit_after_stop=True),
               Scenario(njobs=1, breaks=1, failing=(job_name(0),)),
+              Scenario(njobs=1, breaks=2, late=True), Scenario(njobs=1, breaks=2, late=True, pre_jobs=(0,)),
+              Scenario(njobs=2, breaks=1, late=True),
               Scenario(njobs=1, breaks=1, deviations=1), Scenario(njobs=1, breaks=0, cancel=1, deviations=1),
               Scenario(njobs=2, breaks=0, deviations=1), Scenario(njobs=1, breaks=0, stop=1, deviations=1, resubmit_after_stop=True),
               Scenario(njobs=1, breaks=0, fatal=1, deviations=1)]
@@ -520,6 +535,8 @@ def scenarios_b(tier):
               Scenario(njobs=2, breaks=1, cancel=1), Scenario(njobs=2, breaks=1, fatal=1, retry_exc=2),
               Scenario(njobs=2, breaks=1, srverr=1), Scenario(njobs=2, breaks=1, stop=1, resubmit_after_stop=True),
               Scenario(njobs=2, breaks=1, failing=(job_name(0),)),
+              Scenario(njobs=1, breaks=3, late=True), Scenario(njobs=1, breaks=2, late=True, pre_jobs=(0,)),
+              Scenario(njobs=2, breaks=2, late=True), Scenario(njobs=2, breaks=1, late=True, pre_prog=True),
               Scenario(njobs=3, breaks=0), Scenario(njobs=3, breaks=1, submit_all_first=True),
               Scenario(njobs=1, breaks=1, deviations=2), Scenario(njobs=1, breaks=0, cancel=1, deviations=2),
               Scenario(njobs=2, breaks=1, deviations=1), Scenario(njobs=2, breaks=0, cancel=1, deviations=1),
@@ -1453,6 +1470,7 @@ def run_retry_table(case):
     progress = {
         (Code.PROGRAM_ALREADY_EXISTS, 0): {"GR", "CJ"},  # program exists (maybe with the job): look the job up / create it
         (Code.PROGRAM_DOES_NOT_EXIST, 1): {"CPJ"},       # program does not exist: create both
+        (Code.JOB_ALREADY_EXISTS, 0): {"GR"},            # job (and program) exist: fetch its result
         (Code.JOB_ALREADY_EXISTS, 1): {"GR"},            # job exists: fetch its result
         (Code.JOB_DOES_NOT_EXIST, 2): {"CJ"},            # job does not exist: create it
     }
@@ -1468,8 +1486,6 @@ def run_retry_table(case):
             return bad(f"{code.name} after {_req_kind(cur)}: retry request is {_req_kind(nxt)} for {_req_job(nxt)}, "
                        f"which cannot make progress (acceptable: {sorted(progress[(code, kind_i)])})")
         return good()
-    if code == Code.JOB_ALREADY_EXISTS and kind_i == 0 and _req_kind(nxt) == "GR":
-        return good()  # accepted by the implementation: harmless (server never sends it for this request)
     return bad(f"{code.name} after {_req_kind(cur)} is not retryable but a retry request {_req_kind(nxt)} was returned")
 
 
